@@ -1011,3 +1011,37 @@ Section FinalAnml.
     rewrite anml_final_is_valid. apply andb_true_iff. split; [exact B1|]. apply negb_true_iff. apply mem_str_false. exact B2.
   Qed.
 End FinalAnml.
+
+(* ================================================================== which keyword tables a writer reserves *)
+Lemma subset_b_incl : forall a b, subset_b a b = true -> incl a b.
+Proof. unfold subset_b. intros a b H x Hx. rewrite forallb_forall in H. apply mem_str_In. apply H, Hx. Qed.
+
+Lemma kws_of_rules_incl : forall base rules has,
+  incl (kws_of_rules base rules has) (base ++ List.concat (map snd rules))%list.
+Proof.
+  intros base rules has. unfold kws_of_rules. apply incl_app; [apply incl_appl, incl_refl|]. apply incl_appr.
+  induction rules as [|r rules IH]; simpl; [apply incl_refl|].
+  destruct (rule_applies has r).
+  - apply incl_app; [apply incl_appl, incl_refl|apply incl_appr, IH].
+  - apply incl_appr, IH.
+Qed.
+
+Lemma pddl_writer_kws_incl : forall has, incl (pddl_writer_kws has) pddl_all_keywords.
+Proof. intros has. apply kws_of_rules_incl. Qed.
+
+Lemma pddl_reserved_covered : forall has, incl (pddl_reserved_spec has) (pddl_writer_kws has).
+Proof.
+  intros has. apply subset_b_incl.
+  cbv [pddl_writer_kws kws_of_rules pddl_keyword_rules rule_applies existsb map fst snd pddl_reserved_spec].
+  destruct (has "processes"); destruct (has "events"); destruct (has "durative_actions");
+    destruct (has "trajectory_constraints"); destruct (has "contingent"); vm_compute; reflexivity.
+Qed.
+
+Lemma pddl_final_not_reserved : forall has hier pnames reqs ns st it n,
+  pddl_run (pddl_cfg (pddl_writer_kws has)) hier pnames reqs = Some (ns, st) ->
+  get_pddl_name st it = Some n -> ~ In n (pddl_reserved_spec has).
+Proof.
+  intros has hier pnames reqs ns st it n H Hg Hin.
+  apply (pddl_final_not_keyword (pddl_writer_kws has) hier pnames reqs ns st it n (pddl_writer_kws_incl has) H Hg).
+  apply pddl_reserved_covered, Hin.
+Qed.
